@@ -9,7 +9,41 @@ use vcommon::reggen::{self, Cfg, Mode};
 use vcommon::report::{guard, run_parallel, Report};
 use vcommon::{refcodec, refretain, wf};
 
+/// A long reference chain: entry i mentions entry i+1 (or i-1) through a randomly chosen kind of position.
+fn gen_chain(rng: &mut Rng, len: usize) -> PortableRegistry {
+    use scale_info::{Field, Path, PortableType, Type, TypeDefArray, TypeDefCompact, TypeDefComposite, TypeDefPrimitive, TypeDefSequence, TypeDefTuple, TypeDefVariant, TypeParameter, Variant};
+    let forward = rng.flip();
+    let types = (0..len)
+        .map(|i| {
+            let next: Option<u32> = if forward { if i + 1 < len { Some(i as u32 + 1) } else { None } } else if i > 0 { Some(i as u32 - 1) } else { None };
+            let mut params = vec![];
+            let def: scale_info::TypeDef<scale_info::form::PortableForm> = match next {
+                None => TypeDefPrimitive::U8.into(),
+                Some(n) => match rng.below(7) {
+                    0 => TypeDefSequence::new(n.into()).into(),
+                    1 => TypeDefArray::new(2, n.into()).into(),
+                    2 => TypeDefTuple::new_portable(vec![n.into()]).into(),
+                    3 => TypeDefComposite::new(vec![Field::new(None, n.into(), None, vec![])]).into(),
+                    4 => TypeDefVariant::new(vec![Variant::new("V".to_string(), vec![Field::new(Some("f".to_string()), n.into(), None, vec![])], 0, vec![])]).into(),
+                    5 => TypeDefCompact::new(n.into()).into(),
+                    _ => {
+                        // the only mention is a type parameter
+                        params.push(TypeParameter::new_portable("T".to_string(), Some(n.into())));
+                        TypeDefComposite::new(vec![]).into()
+                    }
+                },
+            };
+            PortableType::new(i as u32, Type::new(Path::from_segments_unchecked(vec![format!("L{}", i)]), params, def, vec![]))
+        })
+        .collect();
+    PortableRegistry { types }
+}
+
 pub fn gen_wf(rng: &mut Rng, thorough: bool) -> PortableRegistry {
+    if rng.chance(1, 60) {
+        let len = *rng.pick(&[10usize, 63, 64, 65, 66, 67, 100, 129, 200, 300, if thorough { 2000 } else { 500 }]);
+        return gen_chain(rng, len);
+    }
     let k = rng.below(1000);
     let cfg = if k < 600 {
         Cfg::small(Mode::WellFormed)
@@ -27,6 +61,10 @@ pub fn gen_filter(rng: &mut Rng, reg: &PortableRegistry) -> (Vec<u32>, &'static 
     let n = reg.types.len() as u32;
     if n == 0 {
         return (vec![], "empty-registry");
+    }
+    let chain = n > 1 && reg.types[0].ty.path.segments.first().map_or(false, |s| s == "L0");
+    if chain && rng.chance(2, 3) {
+        return if rng.flip() { (vec![0], "chain-first") } else { (vec![n - 1], "chain-last") };
     }
     match rng.below(9) {
         0 => (vec![], "none"),
@@ -135,6 +173,10 @@ pub fn run(a: &Args) -> Report {
         }
         rep.max("max_types", before.types.len() as u64);
         rep.max("max_retained", with.len() as u64);
+        if before.types.len() > 1 && before.types[0].ty.path.segments.first().map_or(false, |s| s == "L0") {
+            rep.count("chain_registries", 1);
+            rep.max("max_chain_retained", with.len() as u64);
+        }
         let case = || json!({"case": i, "seed": seed, "filter": fname, "accepted": accepted.iter().take(64).collect::<Vec<_>>(), "registry_hex": enc.iter().take(3000).map(|b| format!("{:02x}", b)).collect::<String>(), "n_types": before.types.len()});
         rep.sample(|| json!({"case": i, "n_types": before.types.len(), "filter": fname, "accepted": accepted.iter().take(16).collect::<Vec<_>>(), "reachable": with.len()}));
 
